@@ -162,6 +162,10 @@ pub fn step_cap_for(pred: &Prediction) -> u64 {
     STEP_CAP + 200 * pred.storm_iterations
 }
 
+thread_local! {
+    static SCRATCH: std::cell::RefCell<Option<crate::clocksim::Scratch>> = const { std::cell::RefCell::new(None) };
+}
+
 pub fn execute(source: &str, plan: &FaultPlan, clock: &Rc<VClock>, step_cap: u64) -> Observed {
     let mut host = Host::new(HostSettings {
         run_tests: false,
@@ -181,11 +185,27 @@ pub fn execute(source: &str, plan: &FaultPlan, clock: &Rc<VClock>, step_cap: u64
         ..Default::default()
     };
     let koto = &mut host.koto;
-    let r = catch_unwind(AssertUnwindSafe(|| match koto.compile_and_run(source) {
-        Ok(v) => (host::render_result(koto, Ok(v)), None),
-        Err(e) => {
-            let full = e.to_string();
-            (Err(host::first_line(&full)), Some(full))
+    // the script lives in a scratch directory of this thread, next to the module files
+    let script_path = SCRATCH.with(|s| {
+        let mut s = s.borrow_mut();
+        let sc = s.get_or_insert_with(|| {
+            let sc = crate::clocksim::Scratch::new("uw");
+            for (name, text) in crate::simlang::MODULE_FILES {
+                std::fs::write(sc.dir.join(name), text).expect("write module");
+            }
+            std::fs::write(sc.dir.join("main.koto"), "").expect("write main");
+            sc
+        });
+        sc.dir.join("main.koto").to_string_lossy().to_string()
+    });
+    let r = catch_unwind(AssertUnwindSafe(|| {
+        let args = koto::CompileArgs::new(source).script_path(script_path.as_str());
+        match koto.compile_and_run(args) {
+            Ok(v) => (host::render_result(koto, Ok(v)), None),
+            Err(e) => {
+                let full = e.to_string();
+                (Err(host::first_line(&full)), Some(full))
+            }
         }
     }));
     out.instructions = clock.instructions();
@@ -345,7 +365,25 @@ pub fn check_trace(pred: &Prediction, obs: &Observed, source: &str) -> Option<Vi
     // when the path crossed a conduit that contributes frames of its own (possibly from another
     // chunk, e.g. koto.run), only the first frame - the failing expression - is defined
     let checked = if pred.trace_lines.is_some() { reported.len() } else { 1 };
-    for (l, c, q) in reported.iter().take(checked) {
+    for (i, (l, c, q)) in reported.iter().enumerate().take(checked) {
+        // a frame the model places in another chunk (a `koto.run` snippet): line 1 of the
+        // snippet, quoting the snippet's text
+        if let Some(exp) = pred.trace_lines.as_ref().and_then(|t| t.get(i))
+            && *exp >= crate::simmodel::FOREIGN_BASE
+        {
+            let text = pred
+                .trace_foreign
+                .get((*exp - crate::simmodel::FOREIGN_BASE) as usize)
+                .map(|s| s.as_str())
+                .unwrap_or("");
+            if *l != 1 || q.trim_end() != text {
+                return v(
+                    "trace-call-sites",
+                    format!("frame {i} is the call `{text}` on line 1 of a chunk run by koto.run, reported as line {l} quoting {q:?}"),
+                );
+            }
+            continue;
+        }
         if *l == 0 || *l as usize > src_lines.len() {
             return v("trace-position-outside-source", format!("line {l}"));
         }
@@ -374,7 +412,11 @@ pub fn check_trace(pred: &Prediction, obs: &Observed, source: &str) -> Option<Vi
     }
     if let Some(expected) = &pred.trace_lines {
         let got: Vec<u32> = reported.iter().map(|r| r.0).collect();
-        if &got != expected {
+        let expected: Vec<u32> = expected
+            .iter()
+            .map(|l| if *l >= crate::simmodel::FOREIGN_BASE { 1 } else { *l })
+            .collect();
+        if got != expected {
             return v(
                 "trace-call-sites",
                 format!("expected lines {expected:?} (failing line, then call sites innermost first), reported {got:?}"),
@@ -789,6 +831,14 @@ fn stmt_expr_variants(s: &Stmt) -> Vec<Stmt> {
             out.push(Stmt::Throw(ThrowKind::Str(1)));
             out.extend(expr_variants(e).into_iter().map(|x| Stmt::Throw(ThrowKind::Num(x))));
         }
+        Stmt::Throw(ThrowKind::TypedLayout(k, e, layout)) => {
+            out.push(Stmt::Throw(ThrowKind::Typed(*k, e.clone())));
+            out.extend(
+                expr_variants(e)
+                    .into_iter()
+                    .map(|x| Stmt::Throw(ThrowKind::TypedLayout(*k, x, *layout))),
+            );
+        }
         Stmt::Throw(ThrowKind::Typed(k, e)) => {
             out.push(Stmt::Throw(ThrowKind::Str(1)));
             out.extend(
@@ -976,7 +1026,7 @@ fn calls_func(b: &Block, func: usize) -> bool {
             Stmt::AssignLambdaCall(_, f2, e, _) | Stmt::KeyChainCall(_, f2, e, _, _) => *f2 == func || in_expr(e, func),
             Stmt::AssignList(es) => es.iter().any(|e| in_expr(e, func)),
             Stmt::AssignStr(ps) => ps.iter().any(|p| matches!(p, StrPart::Int(e) if in_expr(e, func))),
-            Stmt::Throw(ThrowKind::Typed(_, e)) | Stmt::Throw(ThrowKind::Num(e)) => in_expr(e, func),
+            Stmt::Throw(ThrowKind::Typed(_, e)) | Stmt::Throw(ThrowKind::Num(e)) | Stmt::Throw(ThrowKind::TypedLayout(_, e, _)) => in_expr(e, func),
             Stmt::If(c, t, e) => {
                 (match c {
                     Cond::Eq(x, _) | Cond::Gt(x, _) => in_expr(x, func),
@@ -1390,6 +1440,7 @@ pub fn prediction_to_json(p: &Prediction) -> Value {
         "error_occurred": p.error_occurred,
         "storm_iterations": p.storm_iterations,
         "result_alt": p.result_alt,
+        "trace_foreign": p.trace_foreign,
         "origin_line": p.origin_line,
         "trace_lines": p.trace_lines,
     })
@@ -1424,6 +1475,7 @@ pub fn prediction_from_json(v: &Value) -> Prediction {
         error_occurred: v["error_occurred"].as_bool().unwrap_or(true),
         storm_iterations: v["storm_iterations"].as_u64().unwrap_or(0),
         result_alt: v["result_alt"].as_str().map(String::from),
+        trace_foreign: strs(&v["trace_foreign"]),
         origin_line: v["origin_line"].as_u64().map(|x| x as u32),
         trace_lines: v["trace_lines"]
             .as_array()
